@@ -138,7 +138,7 @@ func (g *gateCtl) loop() {
 		// every goroutine is blocked, but somewhere this harness does not know (the code under
 		// test waits differently from the pinned version): accept the point if nothing at all
 		// moves for 25 ms
-		time.Sleep(25 * time.Millisecond)
+		time.Sleep(stabilityWindow)
 		b := g.snapshot()
 		if _, sig2 := quiescent(buf); sig2 == sig1 && sameInts(a, b) && atomic.LoadInt32(&gateHold) == 0 {
 			if g.holdFor > 0 && !g.held && g.points == g.holdAt {
@@ -194,6 +194,10 @@ func (g *gateCtl) release(codes []int) {
 }
 
 var forcedReleases int
+
+// how long nothing at all must move before an all-blocked state the harness does not know is taken
+// for a quiescent point
+const stabilityWindow = 100 * time.Millisecond
 
 // gateHold > 0: the harness itself is about to act on the system (cancel the context)
 var gateHold int32
